@@ -50,6 +50,33 @@ static void props_push(char const *b, char const *e) { g_prop.property_begin = b
 TAG_PART_OK = ('(__CPROVER_rw_ok(part, sizeof(*part)) && VALID_RANGE(part->begin, part->end) && OFF(part->end) - OFF(part->begin) >= 2 && OFF(part->end) - OFF(part->begin) <= BUF_CAP && '
                "part->begin[0] == '<' && part->end[-1] == '>')")
 
+PRE += r'''
+/* ---- validate_nesting: std::stack<unsigned> as an array + depth (R8); ascii_streq on two tag names is an arbitrary predicate here */
+unsigned *g_stk; unsigned g_sp, g_stk_cap; unsigned g_ci, g_s1, g_s2;     /* an arbitrary entry and an arbitrary stack slot */
+static void st_init(void);
+static bool st_empty(void) { return g_sp == 0; }
+/* history facts of a stack whose pushes are strictly increasing (asserted in st_push): every element was pushed earlier, so it is below the push bound,
+   and elements are sorted, so any lower slot (ghost slot g_s1) holds a smaller value than the top.  Assumed where the top is read. */
+unsigned g_push_bound, g_obs_open; bool g_obs_armed;
+static unsigned st_top(void)
+{
+  __CPROVER_assert(g_sp > 0, "st.top() on a non-empty stack");
+  unsigned v = g_stk[g_sp - 1];
+  /* ... and a value that was popped earlier (the opener of the observed pair, recorded in g_obs_open when it was matched) never reappears */
+  __CPROVER_assume(v < g_push_bound && (g_s1 < g_sp - 1 ==> g_stk[g_s1] < v) && (g_obs_armed ==> (v != g_obs_open && v != g_ci /* armed while entry g_ci was processed as a CLOSE tag: it was never pushed */)));
+  return v;
+}
+static void st_pop(void) { __CPROVER_assert(g_sp > 0, "st.pop() on a non-empty stack"); g_sp--; }
+static void st_push(unsigned v) { __CPROVER_assert(g_sp < g_stk_cap, "model capacity (one slot per entry)"); __CPROVER_assert(v >= g_push_bound, "pushes are strictly increasing entry indices"); g_stk[g_sp] = v; g_sp++; g_push_bound = v + 1; }
+static void st_init(void) { g_sp = 0; g_push_bound = 0; g_obs_armed = 0; }
+static bool names_eq(char const *a, char const *b, char const *c, char const *d, bool x) { int r; return r != 0; }
+
+/* facts about the stack at the ghost slots: every element is an earlier entry; elements are strictly increasing; the opener of the observed pair is not on it */
+#define STK_INV(i) (g_sp <= (i) && g_sp <= g_stk_cap && g_push_bound <= (i))
+/* the observed entry, once processed: a close tag that is still a close tag and has a partner is paired with an EARLIER entry that points back at it and is not on the stack any more */
+#define PAIR_OK(parsed) ((parsed)[g_ci].type == close_tag ==> \
+     (/* a processed closing tag keeps its type only if it found its partner */ (parsed)[g_ci].tag.pair >= 0 && (unsigned)(parsed)[g_ci].tag.pair < g_ci && (parsed)[(parsed)[g_ci].tag.pair].tag.pair == (int)g_ci && g_obs_armed && g_obs_open == (unsigned)(parsed)[g_ci].tag.pair))
+'''
 functions = [
     dict(cname='ascii_isalpha', file=X, locate=lit('bool ascii_isalpha(char c)'), sig='bool ascii_isalpha(char c)',
          contract="__CPROVER_assigns()\n__CPROVER_ensures(__CPROVER_return_value == (('a' <= c && c <= 'z') || ('A' <= c && c <= 'Z') || c == '_'))"),
@@ -91,6 +118,33 @@ __CPROVER_assigns(g_last_end, g_parts)
 /* the parts tile the whole input (each push is checked in the stub; here: the last part ends at `end`) */
 __CPROVER_ensures(g_last_end == OFF(end))
 '''),
+    dict(cname='xss_validate_nesting', file=X, locate=lit('void validate_nesting(std::vector<entry> &parsed,bool xhtml)'), sig='void xss_validate_nesting(struct entry *parsed, unsigned parsed_n, bool xhtml)',
+         rename={'ascii_streq': 'names_eq'},
+         rewrites=[(r'std::stack<unsigned> st;', 'st_init();', 1), (r'st\.empty\(\)', 'st_empty()', 3), (r'st\.top\(\)', 'st_top()', 3), (r'st\.pop\(\)', 'st_pop()', 3), (r'st\.push\(i\)', 'st_push(i)', 0),
+                   (r'parsed\.size\(\)', 'parsed_n', 1), (r'entry &cur = parsed\[i\];', 'struct entry *cur = &parsed[i];', 1), (r'\bcur\.', 'cur->', 8)],
+         inserts=[(r'cur->tag\.pair = top_index;', 0, 'g_obs_open = (i == g_ci) ? top_index : g_obs_open; g_obs_armed = (i == g_ci) ? 1 : g_obs_armed;'),
+                  (r'cur->tag\.pair = top_index;', 1, 'g_obs_open = (i == g_ci) ? top_index : g_obs_open; g_obs_armed = (i == g_ci) ? 1 : g_obs_armed;')],
+         loops={0: r'''
+__CPROVER_assigns(i, g_sp, g_push_bound, g_obs_open, g_obs_armed, __CPROVER_object_whole(g_stk), __CPROVER_object_whole(parsed))
+__CPROVER_loop_invariant(i <= parsed_n && STK_INV(i) && (g_ci >= i ==> (parsed[g_ci].tag.pair == -1 && !g_obs_armed)) && (g_ci < i ==> PAIR_OK(parsed)))
+__CPROVER_decreases(parsed_n - i)''',
+                1: r'''
+__CPROVER_assigns(g_sp, g_obs_open, g_obs_armed, __CPROVER_object_whole(parsed))
+__CPROVER_loop_invariant(i < parsed_n && STK_INV(i) && cur == &parsed[i] && (g_ci > i ==> (parsed[g_ci].tag.pair == -1 && !g_obs_armed)) && (g_ci < i ==> PAIR_OK(parsed)) &&
+      (g_ci == i ==> ((parsed[i].tag.pair == -1 && !g_obs_armed) || PAIR_OK(parsed))) && parsed[i].type == close_tag)
+__CPROVER_decreases(g_sp)''',
+                2: r'''
+__CPROVER_assigns(g_sp, __CPROVER_object_whole(parsed))
+__CPROVER_loop_invariant(STK_INV(parsed_n) && PAIR_OK(parsed))
+__CPROVER_decreases(g_sp)'''},
+         contract=r'''
+/* entries come from split_to_parts with tag_data() defaults: pair == -1 (required at the observed entry) */
+__CPROVER_requires(parsed_n <= 100000 && g_stk_cap >= parsed_n && __CPROVER_rw_ok(parsed, parsed_n * sizeof(struct entry)) && __CPROVER_rw_ok(g_stk, g_stk_cap * sizeof(unsigned)) &&
+                   g_ci < parsed_n && parsed[g_ci].tag.pair == -1 && !SAME(parsed, g_stk))
+__CPROVER_assigns(g_sp, g_push_bound, g_obs_open, g_obs_armed, __CPROVER_object_whole(g_stk), __CPROVER_object_whole(parsed))
+/* C04 (what filter() relies on to drop BOTH halves of a rejected pair): a closing tag that found its partner is linked to an earlier entry that links back to it */
+__CPROVER_ensures(g_sp == 0 && ((parsed[g_ci].type == close_tag && parsed[g_ci].tag.pair >= 0) ==> ((unsigned)parsed[g_ci].tag.pair < g_ci && parsed[parsed[g_ci].tag.pair].tag.pair == (int)g_ci)))
+'''),
 ]
 
 # (specs/wip/xss_tag.inc holds the tag-grammar jobs: parked, they do not close within the time budget yet)
@@ -110,13 +164,27 @@ jobs = [
     xss_split_to_parts(buf, buf + n);
     __CPROVER_assert(g_last_end == OFF(buf) + n, "the parts tile the whole input: the last part ends at `end`");
     VERIF_REACH;""", witness=dict(bufs=['in'])),
+    dict(name='xss_validate_nesting', props=P, kind='plainloops', per_property=r'.', pp_chunk=12, pp_workers=12, timeout=600,
+         complete_note='all three loops closed by loop contracts (goto-instrument --apply-loop-contracts, no dfcc); pre/postcondition of the function contract are assumed/asserted by the harness',
+         harness=r'''
+    unsigned n, cap, ci, s1, s2; __CPROVER_assume(n <= 1000 && cap >= n && cap <= 1002);   /* entry-table bound of the harness (cbmc allocates per element); the invariants do not depend on it */ struct entry *ps = malloc(n * sizeof(struct entry)); g_stk = malloc(cap * sizeof(unsigned)); g_stk_cap = cap;
+    __CPROVER_assume(ps != NULL && g_stk != NULL); g_ci = ci; g_s1 = s1; g_s2 = s2; int xh;
+    __CPROVER_assume(ci < n && ps[ci].tag.pair == -1);                 /* = the requires clause */
+    xss_validate_nesting(ps, n, xh != 0);
+    __CPROVER_assert(g_sp == 0, "the stack of open tags is drained");
+    __CPROVER_assert((ps[ci].type == close_tag && ps[ci].tag.pair >= 0) ==> ((unsigned)ps[ci].tag.pair < ci && ps[ps[ci].tag.pair].tag.pair == (int)ci),
+                     "a closing tag that found its partner is linked to an earlier entry that links back to it (filter() drops both halves of a rejected pair through these links)");
+    VERIF_REACH;'''),
 ]
 
 UNIT = dict(
     name='xss', pre=PRE, functions=functions, jobs=jobs,
     regions=[dict(name='html_data_type', file=X, start=r'typedef enum \{\s*invalid_data', end=r'\} html_data_type;')],
     trusted=['xss: std::vector<entry>::push_back is a stub that asserts the tiling and the per-part classification at an arbitrary ghost offset (R10); reserve/clear are no-ops',
-             'xss: memcmp/strlen are cbmc built-in models'],
-    not_covered={'C04': ['rule lookup (std::map/std::set, regex, URI parser), validate_nesting (std::stack), character-encoding validation of the input (unit encoding/utf8), '
+             'xss: memcmp/strlen are cbmc built-in models',
+             'xss: validate_nesting: std::stack<unsigned> is an array + depth; three HISTORY facts of a stack whose pushes are strictly increasing (asserted at every push) are ASSUMED where the top is read: '
+             'the top was pushed earlier (below the push bound), lower slots hold smaller values, and a value that was popped (the opener of the observed pair) or never pushed (the observed close tag) is not on the stack; '
+             'ascii_streq on two tag names is an arbitrary predicate; entry table bounded to 1000 entries in the harness'],
+    not_covered={'C04': ['rule lookup (std::map/std::set, regex, URI parser), that every open tag left unmatched is re-typed (converse direction of the pairing), character-encoding validation of the input (unit encoding/utf8), '
                          'the composition validate(filter(x)) over unbounded token vectors: the tiling + classification contracts are the stability argument (DESIGN.md)']},
 )
